@@ -1,28 +1,224 @@
 /-
-C20 — the SDK's producer and consumer deliver every message once, in partition order.
-(First instalment: the full development over the consumer state machine is merged when proved.)
+C20 — "Messages handed to the high-level producer - whatever its batching, interval and partitioning
+settings, and whichever of its send calls is used - all reach the stream, topic and partition they were
+addressed to and no other, and a high-level consumer (single or group member) yields every message of its
+partitions exactly once and in offset order as long as replay is not requested. The offset it commits never
+exceeds the last message it has fetched and, in the modes that commit on consumption, never exceeds the
+last message it has yielded; a consumer re-created with the same identity resumes right after its last
+committed offset instead of skipping or re-reading acknowledged work."
+
+Model: `Iggy/Sdk/Model.lean` (sdk/src/clients/producer.rs, consumer.rs; tied to the real code by the
+judge's differential runs). Specification side: `Iggy/Sdk/Spec.lean`.
+
+Reading the consumer statements:
+* `Srv` is the abstract server for the one partition `pid` the server serves this consumer from and the
+  one consumer identity (C02 / C07 are the properties that tie the real server to it): messages
+  `msgAt 0 .. msgAt (len-1)`, the stored offset `stored`.
+* `step cfg pid strat0 sys e` is one event of the composition consumer + server: `pop` (a buffered message
+  is yielded), `poll` (only with an empty buffer: server poll, `onReply`, the synchronous commit if any,
+  `onPolled`), `deliver` (the background task takes one entry of the store-offset channel), `tick` (the
+  interval task stores the consumed offsets), `append n` (producers), `drop` (the consumer is dropped and
+  re-created with the same identity; enabled once the channel is drained - the real background task
+  drains it after the drop, which is any number of `deliver`s before). Events that are not enabled are
+  no-ops, so every `List Ev` is a schedule; `Reach cfg pid strat0 srv0 sys tr` = some schedule leads from
+  a fresh consumer and the server `srv0` to `sys` with the trace `tr` (`reach_iff_run`).
+* The trace lists, in order, `yield y`, `polled b r` (a poll reached the server, which had `b` stored and
+  returned `r`), `store off ok` (a store-offset request reached the server), `dropped`.
+  `Always P tr`: every observation of the trace satisfies `P` given the trace before it.
+  `lastYield pre`: the last offset yielded by the incarnation current at the end of `pre`.
+* `Good cfg strat0`: `allow_replay = false`, batch size ≥ 1, strategy `next` or `offset k`.
+  All modes (disabled, polling, each, nth n, all; with or without the interval task), all schedules.
 -/
-import Iggy.Sdk.Model
+import Iggy.Sdk.Lemmas
 namespace Iggy.Props.C20
 open Iggy.Sdk
 
 variable {Id Part M : Type}
 
-/-- an empty input produces no request, whatever the call -/
-theorem empty_sends_nothing (c : PCfg Id Part) (s t : Id) (p : Option Part) :
-    c.path s t ([] : List M) p = [] := by simp [PCfg.path]
+/-! ## A. producer -/
 
-/-- `send_to` addresses every request to the stream and topic it is given (fix 446fd4b) -/
-theorem sendTo_addressed (c : PCfg Id Part) (s t : Id) (msgs : List M) (p : Option Part) :
-    ∀ r ∈ c.requests (.sendTo s t msgs p), r.stream = s ∧ r.topic = t := by
-  intro r hr
-  simp only [PCfg.requests, PCfg.path] at hr
-  split at hr
-  · cases hr
-  · simp only [List.mem_map] at hr
-    obtain ⟨_, _, rfl⟩ := hr
-    exact ⟨rfl, rfl⟩
+/-- cutting into chunks loses nothing and keeps the order (also for `n = 0`, which `batch_size(0)` cannot
+produce: it is stored as `None`) -/
+theorem chunks_flatten {α : Type} (n : Nat) (l : List α) : (chunks n l).flatten = l :=
+  Iggy.Sdk.chunks_flatten n l
 
-example : (⟨1, 1, some 2, false, none, 0⟩ : PCfg Nat Nat).path 5 6 ([] : List Nat) (some 7) = [] := by decide
+/-- no chunk is empty, none exceeds `n` -/
+theorem chunks_bounds {α : Type} {n : Nat} (l : List α) (hn : 0 < n) :
+    ∀ c ∈ chunks n l, c ≠ [] ∧ c.length ≤ n :=
+  Iggy.Sdk.chunks_bounds l hn
+
+/-- whatever the configuration (batch size, send interval, builder partitioning) and whichever call:
+the requests carry exactly the messages handed in, in order; every request goes to the stream and topic
+the call addresses (the producer's own for `send` / `send_one` / `send_with_partitioning`, the given ones
+for `send_to`) with the partitioning the call resolves to (argument, else the builder's, else balanced);
+no request is empty or larger than the batch size; no messages, no request. -/
+theorem producer_delivers (c : PCfg Id Part) (hb : c.batch ≠ some 0) (call : Call Id Part M) :
+    ((c.requests call).map (·.msgs)).flatten = call.msgs ∧
+    (∀ r ∈ c.requests call, r.stream = (call.addr c).1 ∧ r.topic = (call.addr c).2 ∧ r.part = call.part c ∧
+      r.msgs ≠ [] ∧ r.msgs.length ≤ c.batch.getD MAX_BATCH_SIZE) ∧
+    (call.msgs = [] → c.requests call = []) :=
+  Iggy.Sdk.producer_delivers c hb call
+
+/-! ## B. consumer -/
+
+variable {cfg : CCfg} {pid : Nat} {strat0 : Strat} {srv0 : Srv} {sys : Sys} {tr : List Obs}
+
+/-- `Reach` is "some schedule": every run is reachable, every reachable state is a run -/
+theorem reach_iff_run : Reach cfg pid strat0 srv0 sys tr ↔
+    ∃ evs, run cfg pid strat0 (Cons.new strat0, srv0) evs = (sys, tr) := by
+  constructor
+  · exact reach_run
+  · rintro ⟨evs, h⟩
+    have := run_reach (Reach.init (cfg := cfg) (pid := pid) (strat0 := strat0) (srv0 := srv0)) evs
+    rw [h] at this; simpa using this
+
+/-- Every yield comes from the consumer's partition, is the server's message at its offset, and is the
+successor of the previous yield of the same incarnation: strictly increasing, no repeats, no gaps.
+Every yielded offset exists on the server. Said per incarnation: its yields are a run `a, a+1, ..`. -/
+theorem yields_in_order_once (hg : Good cfg strat0) (hr : Reach cfg pid strat0 srv0 sys tr) :
+    Always (fun pre x => ∀ y, x = .yield y →
+      y.pid = pid ∧ y.msg = msgAt y.msg.off ∧ ∀ l, lastYield pre = some l → y.msg.off = l + 1) tr ∧
+    (∀ y ∈ yieldsOf tr, y.msg.off < sys.2.len) ∧
+    (∀ inc ∈ incarnations tr, ∃ a, offsOf inc = List.range' a (offsOf inc).length) :=
+  Iggy.Sdk.yields_in_order_once hg hr
+
+/-- The first yield of an incarnation directly follows the poll that fetched it and is the first message
+that poll asked for: with `next` the offset right after the one the server had stored when the poll
+arrived (offset 0 if none), with `offset k` the offset `k` (`firstOff`). -/
+theorem first_yield_resumes (hg : Good cfg strat0) (hr : Reach cfg pid strat0 srv0 sys tr) :
+    Always (fun pre x => ∀ y, x = .yield y → lastYield pre = none →
+      ∃ pre' b r, pre = pre' ++ [.polled b r] ∧ y.msg.off = firstOff strat0 b) tr :=
+  Iggy.Sdk.first_yield_resumes hg hr
+
+/-- The same on states: in a reachable state whose incarnation has not yielded yet - in particular right
+after a re-creation, `lastYield_after_drop` - the only event that yields is a poll, and what it yields is
+the server's message right after the offset stored for the identity at that moment: nothing at or below
+the committed offset is read again, nothing after it is skipped. -/
+theorem resume_after_committed (hg : Good cfg .next) (hr : Reach cfg pid .next srv0 sys tr)
+    (hl : lastYield tr = none) (e : Ev) (y : Yield) (hy : Obs.yield y ∈ (step cfg pid .next sys e).2) :
+    e = .poll ∧ y = ⟨pid, msgAt (resume sys.2.stored)⟩ :=
+  first_yield_state hg hr hl e y hy
+
+/-- a re-created consumer has not yielded -/
+theorem lastYield_after_drop (tr : List Obs) : lastYield (tr ++ [.dropped]) = none := by
+  simp [lastYield]
+
+/-- Every store-offset request that reaches the server (from the channel, the interval task or the
+synchronous commit inside a poll; ALL modes) carries an offset yielded before, and the server accepts
+it. Outside polling mode the offset stored on the server is therefore the one it started with or one
+the consumer (this or an earlier incarnation) has yielded. -/
+theorem commit_le_yielded (hg : Good cfg strat0) (hr : Reach cfg pid strat0 srv0 sys tr) :
+    Always (fun pre x => ∀ off ok, x = .store off ok → ok = true ∧ off ∈ offsOf pre) tr ∧
+    (cfg.polling = false → sys.2.stored = srv0.stored ∨ ∃ o ∈ offsOf tr, sys.2.stored = some o) :=
+  Iggy.Sdk.commit_le_yielded hg hr
+
+/-- In every mode - polling mode is the one where it says something new - the offset stored on the server
+is the one it started with or an offset the server has returned to this consumer; and what was yielded was
+fetched. -/
+theorem commit_le_fetched (hg : Good cfg strat0) (hr : Reach cfg pid strat0 srv0 sys tr) :
+    (sys.2.stored = srv0.stored ∨ ∃ o ∈ fetchedOf tr, sys.2.stored = some o) ∧
+    (∀ o ∈ offsOf tr, o ∈ fetchedOf tr) :=
+  Iggy.Sdk.commit_le_fetched hg hr
+
+/-- the offset a poll finds stored on the server is the initial one or a committed one (`PolledOK`):
+with `first_yield_resumes`, an incarnation starts right after an offset that was fetched and, outside
+polling mode, yielded -/
+theorem polled_stored (hg : Good cfg strat0) (hr : Reach cfg pid strat0 srv0 sys tr) :
+    Always (PolledOK cfg srv0) tr :=
+  Iggy.Sdk.polled_stored hg hr
+
+/-- Progress. Modes each / all / nth n (n ≥ 1) / polling, strategy `next`, with or without the interval
+task: in a reachable state with an empty buffer and an empty store-offset channel in which the server has
+the message the stream has to yield next (`wanted`: right after the last one this incarnation consumed,
+else right after the stored offset), two polls yield it. The second poll is needed when the stored
+offset lags behind the consumed one by a batch or more (nth n with batch < n): the first poll stores the
+consumed offset. This is the statement that was false before 47819f3. -/
+theorem no_stall (hg : Good cfg .next) (hm : ConsumeMode cfg ∨ cfg.polling = true)
+    (hr : Reach cfg pid .next srv0 sys tr)
+    (hp : sys.1.pending = []) (hb : sys.1.buffered = []) (hw : wanted pid sys < sys.2.len) :
+    Obs.yield ⟨pid, msgAt (wanted pid sys)⟩ ∈ (run cfg pid .next sys [.poll, .poll]).2 :=
+  no_stall_reach hg hm hr hp hb hw
+
+/-- More precisely: the first poll yields it, or the first poll stores the consumed offset (nothing else)
+and the second yields it. -/
+theorem no_stall_two_polls (hg : Good cfg .next) (hm : ConsumeMode cfg ∨ cfg.polling = true)
+    (hr : Reach cfg pid .next srv0 sys tr)
+    (hp : sys.1.pending = []) (hb : sys.1.buffered = []) (hw : wanted pid sys < sys.2.len) :
+    (∃ r, (step cfg pid .next sys .poll).2 = [.polled sys.2.stored r, .yield ⟨pid, msgAt (wanted pid sys)⟩]) ∨
+    (∃ r b' r', (step cfg pid .next sys .poll).2 = [.polled sys.2.stored r, .store (wanted pid sys - 1) true] ∧
+      (step cfg pid .next (step cfg pid .next sys .poll).1 .poll).2 =
+        [.polled b' r', .yield ⟨pid, msgAt (wanted pid sys)⟩]) :=
+  no_stall_inv hg hm (hr.inv hg) hp hb hw
+
+/-- Across re-creations nothing is lost (strategy `next`, every mode but polling, whose commits run ahead
+of the yields by design): the offsets yielded so far by all incarnations together are exactly an interval
+starting right after the offset the server held at the beginning. -/
+theorem no_skip_across_incarnations (hg : Good cfg .next) (hpol : cfg.polling = false)
+    (hr : Reach cfg pid .next srv0 sys tr) :
+    (∀ o ∈ offsOf tr, resume srv0.stored ≤ o) ∧
+    (∀ o o', o' ∈ offsOf tr → resume srv0.stored ≤ o → o ≤ o' → o ∈ offsOf tr) :=
+  Iggy.Sdk.no_skip_across_incarnations hg hpol hr
+
+/-- What an incarnation yields does not depend on the schedule (when the background tasks run, when the
+application polls, when producers append): two incarnations, of any two schedules from any two servers,
+that start with the same message yield the same sequence as far as both go. -/
+theorem yields_schedule_independent (hg : Good cfg strat0) {sys₁ sys₂ : Sys} {tr₁ tr₂ : List Obs}
+    {srv₁ srv₂ : Srv}
+    (h₁ : Reach cfg pid strat0 srv₁ sys₁ tr₁) (h₂ : Reach cfg pid strat0 srv₂ sys₂ tr₂)
+    (inc₁ inc₂ : List Obs) (hi₁ : inc₁ ∈ incarnations tr₁) (hi₂ : inc₂ ∈ incarnations tr₂)
+    (hhead : (yieldsOf inc₁).head? = (yieldsOf inc₂).head?)
+    (hlen : (yieldsOf inc₁).length ≤ (yieldsOf inc₂).length) :
+    yieldsOf inc₁ = (yieldsOf inc₂).take (yieldsOf inc₁).length :=
+  Iggy.Sdk.yields_schedule_independent hg h₁ h₂ inc₁ inc₂ hi₁ hi₂ hhead hlen
+
+/-! ## non-vacuity and witnesses -/
+
+/-- the hypotheses are satisfiable -/
+example : Good { batch := 3, mode := .nth 5 } .next := ⟨rfl, by decide, Or.inl rfl⟩
+example : ConsumeMode { batch := 3, mode := .nth 5 } := Or.inr (Or.inr ⟨5, by decide, rfl⟩)
+
+/-- a run with yields, a lagging stored offset (nth 5, batch 3: the second poll returns 0..2 again and
+commits 2, the third fetches 3..5), a re-creation and a resumption -/
+example : (run { batch := 3, mode := .nth 5 } 1 .next (Cons.new .next, ⟨10, none⟩)
+    [.poll, .pop, .pop, .poll, .poll, .deliver, .drop, .poll]).2 =
+    [.polled none [msgAt 0, msgAt 1, msgAt 2], .yield ⟨1, msgAt 0⟩, .yield ⟨1, msgAt 1⟩, .yield ⟨1, msgAt 2⟩,
+     .polled none [msgAt 0, msgAt 1, msgAt 2], .store 2 true,
+     .polled (some 2) [msgAt 3, msgAt 4, msgAt 5], .yield ⟨1, msgAt 3⟩,
+     .store 0 true, .dropped,
+     .polled (some 0) [msgAt 1, msgAt 2, msgAt 3], .yield ⟨1, msgAt 1⟩] := by decide
+
+/-- a state as in `no_stall` where the second poll is needed -/
+example : let sys := (run { batch := 2, mode := .nth 5 } 1 .next (Cons.new .next, ⟨10, none⟩)
+      [.poll, .pop, .deliver, .poll]).1
+    sys.1.pending = [] ∧ sys.1.buffered = [] ∧ wanted 1 sys = 3 ∧ sys.2.stored = some 0 ∧
+    offsOf (step { batch := 2, mode := .nth 5 } 1 .next sys .poll).2 = [] ∧
+    offsOf (run { batch := 2, mode := .nth 5 } 1 .next sys [.poll, .poll]).2 = [3] := by decide
+
+/-- polling mode: the commit runs ahead of the yields (offset 2 stored, 0 yielded); a re-created consumer
+skips what was fetched but not yielded -/
+example : (run { batch := 3, mode := .polling } 1 .next (Cons.new .next, ⟨10, none⟩) [.poll]).1.2.stored = some 2 ∧
+    offsOf (run { batch := 3, mode := .polling } 1 .next (Cons.new .next, ⟨10, none⟩) [.poll, .drop, .poll]).2 =
+      [0, 3] := by decide
+
+/-- WITNESS (not a C20 clause, but worth knowing): the offset stored on the server can go BACK. `store_consumer_offset`
+never skips offset 0 (`offset <= stored && offset >= 1`), so a stale `(partition, 0)` still waiting in the
+channel overwrites a later commit - here the synchronous commit of 2. With nth n nothing repairs it until
+the next multiple of n is consumed: a consumer re-created in between re-reads 1 and 2 (third example above). -/
+example : (run { batch := 3, mode := .each } 1 .next (Cons.new .next, ⟨3, none⟩)
+      [.poll, .pop, .pop, .poll]).1.2.stored = some 2 ∧
+    (run { batch := 3, mode := .each } 1 .next (Cons.new .next, ⟨3, none⟩)
+      [.poll, .pop, .pop, .poll, .deliver]).1.2.stored = some 0 := by decide
+
+/-- `no_stall` needs a committing mode: with `AutoCommit::Disabled` and `next` the application has to
+store offsets itself, otherwise every poll returns the same messages (by design) -/
+example : offsOf (run { batch := 1, mode := .disabled } 1 .next (Cons.new .next, ⟨5, none⟩)
+    [.poll, .poll, .poll, .poll, .poll]).2 = [0] := by decide
+
+/-- a producer call (`chunks` is defined by well-founded recursion, which `decide` does not unfold) -/
+example : ((({ stream := 1, topic := 2, batch := some 2, interval := true, partitioning := none, dflt := 0 } :
+    PCfg Nat Nat).requests (.sendTo 7 8 [10, 11, 12] (some 5))).map
+      (fun r => (r.stream, r.topic, r.part, r.msgs))) =
+    [(7, 8, 5, [10, 11]), (7, 8, 5, [12])] := by
+  simp [PCfg.requests, PCfg.path, chunks]
 
 end Iggy.Props.C20
